@@ -46,4 +46,33 @@ def handle : List Sx → Sx
     | _, _ => Sx.bad
   | _ => Sx.bad
 
+def convertNl (nl : Str) : Str → Str
+  | [] => []
+  | '\n' :: r => nl ++ convertNl nl r
+  | c :: r => c :: convertNl nl r
+
+def plainKind : TK → Bool
+  | .data | .ghost | .comment | .commentBegin | .commentEnd | .rawBegin | .rawEnd
+  | .lineComment | .lineCommentBegin | .lineCommentEnd => true
+  | _ => false
+
+/-- `(lex-plain cfg "nlseq" "source")` → `(ok "rendered" single)` when the source consists of text, comments and
+    raw blocks only (what such a template renders to: its data tokens with line breaks converted; `single` = the
+    source lexes to one data token, i.e. contains no start sequence at all) | `(not-plain)` | `(syntax-error)` -/
+def handlePlain : List Sx → Sx
+  | [cfg, nl, src] =>
+    match decCfg cfg, nl.toStr?, src.toStr? with
+    | some cfg, some nl, some src =>
+      if !cfg.Valid then Sx.oom else
+      match tokeniter cfg src.toList with
+      | .ok toks =>
+        if toks.all (fun t => plainKind t.kind) then
+          let data := (toks.filter (fun t => t.kind == .data)).map (·.text)
+          .list [.atom "ok", .str (String.ofList (convertNl nl.toList data.flatten)),
+                 Sx.ofBool (toks.length ≤ 1)]
+        else .list [.atom "not-plain"]
+      | _ => .list [.atom "syntax-error"]
+    | _, _, _ => Sx.bad
+  | _ => Sx.bad
+
 end JinjaV.Wire.Lex
